@@ -8,7 +8,7 @@ import vlib, gen_nb
 from vlib import enc, dec, canon, plain
 from checks import mergelib
 
-THEOREMS = ['Nbdime.C04_insert_valid', 'Nbdime.C04_remove_valid', 'Nbdime.C04_marker_cell_valid', 'Nbdime.C04_marker_cell_with_id_invalid_pre45']
+THEOREMS = ['Nbdime.C04_insert_valid', 'Nbdime.C04_remove_valid', 'Nbdime.C04_marker_cell_valid', 'Nbdime.C04_marker_cell_with_id_invalid_pre45', 'Nbdime.C04_model_cells_valid']
 
 
 def repair_known(m, minors):
@@ -139,7 +139,7 @@ def run(ctx):
     from checks import nbshape
     nbshape.correspondence(ctx, 120 if ctx.tier == 'quick' else 2000)
     rng = ctx.rng
-    ntriples = 140 if ctx.tier == 'quick' else 1500
+    ntriples = 260 if ctx.tier == 'quick' else 2000
     combos = mergelib.all_combos()
     for t in range(ntriples):
         b, l, r, kinds = gen_nb.any_triple(rng, minor_change=rng.random() < 0.3)
